@@ -11,6 +11,7 @@ import (
 	"runtime"
 	"sort"
 	"sync"
+	"sync/atomic"
 	"time"
 
 	"github.com/miekg/dns"
@@ -53,8 +54,15 @@ type sigCase struct {
 	AlgMismatch bool   // RSA only: also try a KEY record with the same public key under another RSA algorithm number
 	ShortR      int    // ECDSA, library-signed: n > 0 = sign with the n-th nonce whose point has an X with two leading zero octets (r short)
 	ShortS      bool   // ECDSA, library-signed, small messages: search the message ID for a digest that gives an s with two leading zero octets
-	RdLens      []int  // extra RDLENGTH values tried on the SIG record (besides the systematic sweep)
-	Sample      []int  // bit positions (reduced modulo the signed length) flipped in addition, for messages too long to enumerate
+	Concurrent  bool   // also verify from four goroutines at once on the one buffer
+	Preset      bool   // library-signed: the SIG value handed to Sign has its header and derived fields pre-set
+	PreOwner    string // presentation owner name of that template (may carry escapes)
+	PreType     uint16
+	PreClass    uint16
+	PreTTL      uint32
+	PreRdlen    uint16
+	RdLens      []int // extra RDLENGTH values tried on the SIG record (besides the systematic sweep)
+	Sample      []int // bit positions (reduced modulo the signed length) flipped in addition, for messages too long to enumerate
 	Muts        []Mut
 }
 
@@ -161,7 +169,9 @@ func checkSig0(c sigCase) (err error) {
 	if e1 != nil || e2 != nil || !signerL.EqualFold(signerAsL) {
 		return nil
 	}
-	if abs(c.IncOff) < 120 || abs(c.ExpOff) < 120 {
+	// window bounds are either at least 120 s away from the wall clock or exactly "now" (inception =
+	// the second the case starts: valid from then on; expiration = that second: valid only within it)
+	if (abs(c.IncOff) < 120 && c.IncOff != 0) || (abs(c.ExpOff) < 120 && c.ExpOff != 0) || (c.IncOff == 0 && c.ExpOff == 0) {
 		return nil
 	}
 	pub := ref.PublicOf(priv)
@@ -173,7 +183,7 @@ func checkSig0(c sigCase) (err error) {
 	now64 := time.Now().Unix()
 	now := uint32(now64)
 	incep, expir := uint32(now64+c.IncOff), uint32(now64+c.ExpOff)
-	inWindow := c.IncOff < 0 && c.ExpOff > 0
+	inWindow := c.IncOff <= 0 && c.ExpOff >= 0
 
 	// the packed message, from an independent Msg value
 	packed, perr := c.Msg.Build().Pack()
@@ -185,11 +195,17 @@ func checkSig0(c sigCase) (err error) {
 		return nil
 	}
 	window := map[bool]string{true: "window=valid", false: "window=past"}[inWindow]
+	if inWindow && c.IncOff == 0 {
+		window = "window=inception-is-now"
+	}
+	if inWindow && c.ExpOff == 0 {
+		window = "window=expiration-is-now"
+	}
 	if !inWindow && c.IncOff > 0 {
 		window = "window=future"
 	}
 	nontrivial := c.Msg.Records() >= 1
-	classes := []string{fmt.Sprintf("alg=%d", c.Alg), window, fmt.Sprintf("compress=%v", c.Msg.Compress), sizeClass(len(packed)), hugeClass(c.Msg, len(packed)), extraClass(len(c.Msg.Extra)),
+	classes := []string{fmt.Sprintf("alg=%d", c.Alg), window, fmt.Sprintf("compress=%v", c.Msg.Compress), sizeClass(len(packed)), hugeClass(c.Msg, len(packed)), fmt.Sprintf("signed-size>=65534:%v", len(packed)+sigRRLen >= 65534), extraClass(len(c.Msg.Extra)),
 		fmt.Sprintf("refsigned=%v", c.RefSign), fmt.Sprintf("signercase=%v", c.Signer != c.SignerAs)}
 	defer func() {
 		key := append([]byte(fmt.Sprintf("%d|%s|%d|%d|", c.Alg, c.SignerAs, c.IncOff, c.ExpOff)), packed...)
@@ -247,6 +263,15 @@ func checkSig0(c sigCase) (err error) {
 		}
 	} else {
 		sig := &dns.SIG{}
+		if c.Preset {
+			// a template the caller (or an earlier use) left things in: Sign is documented to need only
+			// signer name, key tag, algorithm and the two times; the pinned library overwrites the header
+			// with owner ".", class ANY, TTL 0 (RFC 2931 2.3 / 3) and clears the derived RDATA fields
+			sig.Hdr = dns.RR_Header{Name: c.PreOwner, Rrtype: c.PreType, Class: c.PreClass, Ttl: c.PreTTL, Rdlength: c.PreRdlen}
+			sig.TypeCovered, sig.Labels, sig.OrigTtl = c.PreType, uint8(c.PreRdlen), c.PreTTL
+			sig.Signature = base64.StdEncoding.EncodeToString([]byte(c.PreOwner))
+			classes = append(classes, "preset-sig-template")
+		}
 		sig.KeyTag, sig.SignerName, sig.Algorithm = tag, c.SignerAs, c.Alg
 		sig.Inception, sig.Expiration = incep, expir
 		m := c.Msg.Build()
@@ -266,8 +291,9 @@ func checkSig0(c sigCase) (err error) {
 		if int(ref.ARCount(out)) != int(ref.ARCount(packed))+1 || mp.AR != len(c.Msg.Extra)+1 {
 			return pbt.Errf("ARCOUNT of the signed message is %d, message has %d additional records", ref.ARCount(out), len(c.Msg.Extra))
 		}
-		if last.End != len(out) || last.Type != ref.TypeSIG || len(last.Owner) != 0 {
-			return pbt.Errf("appended record: type %d owner %v ends at %d of %d octets; want one root-owned SIG record at the very end", last.Type, last.Owner, last.End, len(out))
+		if last.End != len(out) || last.Type != ref.TypeSIG || len(last.Owner) != 0 || last.Class != ref.ClassANY || last.TTL != 0 {
+			return pbt.Errf("appended record: type %d class %d ttl %d owner %v ends at %d of %d octets; want one root-owned SIG record of class ANY and TTL 0 at the very end (RFC 2931 3; template header was preset: %v, owner %q)",
+				last.Type, last.Class, last.TTL, last.Owner, last.End, len(out), c.Preset, c.PreOwner)
 		}
 		ps, _, serr2 := ref.ParseSig(out, last)
 		if serr2 != nil {
@@ -297,6 +323,14 @@ func checkSig0(c sigCase) (err error) {
 		}
 		return pbt.Errf("reference verification of the signed message: ok=%v (%s), want %v", rv.OK, rv.Why, inWindow)
 	}
+	if inWindow && c.ExpOff == 0 {
+		// valid during this very second only: asserted when the clock has not ticked since the case began
+		verr := rsig.Verify(k, out)
+		if time.Now().Unix() == now64 && verr != nil {
+			return pbt.Errf("SIG.Verify at now == expiration failed: %v (RFC 2931 / 4034: valid through the expiration second)", verr)
+		}
+		return nil
+	}
 	verr := rsig.Verify(k, out)
 	if inWindow && verr != nil {
 		return pbt.Errf("SIG.Verify of the signed message failed: %v (alg %d, %d octets, %d additional records before the SIG, compressed=%v, reference-signed=%v)", verr, c.Alg, len(out), len(c.Msg.Extra), c.Msg.Compress, c.RefSign)
@@ -306,6 +340,52 @@ func checkSig0(c sigCase) (err error) {
 	}
 	if !inWindow {
 		return nil // everything below alters a message that verifies
+	}
+
+	// several goroutines verify the same octets at once (one message checked against several candidate
+	// KEYs): every call gives the answer it gives alone, and the caller's buffer is left as it was
+	if c.Concurrent && len(out) <= 4096 {
+		snapshot := append([]byte(nil), out...)
+		wrongPriv, _ := privFor(sigCase{Alg: c.Alg, KeySlot: c.KeySlot + 1, KeySeed: append([]byte{0x33}, c.KeySeed...)})
+		wrongKey, _ := keyRR(c.Signer, c.Alg, ref.PublicOf(wrongPriv))
+		iters := 24
+		if c.Alg == ref.AlgECDSAP384 || len(keyOct) > 300 {
+			iters = 6
+		}
+		var wg sync.WaitGroup
+		var bad atomic.Int64
+		var firstBad atomic.Value
+		for g := 0; g < 4; g++ {
+			wg.Add(1)
+			go func(g int) {
+				defer wg.Done()
+				defer func() {
+					if r := recover(); r != nil {
+						bad.Add(1)
+						firstBad.CompareAndSwap(nil, fmt.Sprintf("panic: %v", r))
+					}
+				}()
+				for i := 0; i < iters; i++ {
+					if (g+i)%3 == 0 {
+						if rsig.Verify(wrongKey, out) == nil {
+							bad.Add(1)
+							firstBad.CompareAndSwap(nil, "accepted with another key")
+						}
+					} else if e := rsig.Verify(k, out); e != nil {
+						bad.Add(1)
+						firstBad.CompareAndSwap(nil, "right key: "+e.Error())
+					}
+				}
+			}(g)
+		}
+		wg.Wait()
+		if bad.Load() > 0 {
+			return pbt.Errf("%d of %d concurrent SIG.Verify calls on one shared buffer gave a wrong answer (first: %v)", bad.Load(), 4*iters, firstBad.Load())
+		}
+		if !bytes.Equal(out, snapshot) {
+			return pbt.Errf("SIG.Verify changed the caller's buffer (first difference at octet %d)", firstDiff(out, snapshot))
+		}
+		classes = append(classes, "concurrent-verify")
 	}
 
 	// (2) only-if
@@ -695,7 +775,11 @@ func genWindow(t *rapid.T) (int64, int64) {
 	far := func(tag string) int64 {
 		return rapid.OneOf(rapid.Int64Range(120, 600), rapid.Int64Range(120, 86400*365)).Draw(t, tag)
 	}
-	switch rapid.IntRange(0, 9).Draw(t, "wk") {
+	switch rapid.IntRange(0, 11).Draw(t, "wk") {
+	case 10: // inception is the current second
+		return 0, far("e")
+	case 11: // expiration is the current second
+		return -far("i"), 0
 	case 0: // wholly past
 		e := far("e")
 		return -(e + far("len")), -e
@@ -737,12 +821,47 @@ func genSig0(t *rapid.T) sigCase {
 		// keys at the library's bounds: 512-octet modulus, one- and four-octet exponents
 		c.KeySlot = ref.RSAEdgeBase + rapid.IntRange(0, ref.RSAEdgeSize()-1).Draw(t, "edgeslot")
 	}
+	c.Concurrent = rapid.IntRange(0, 2).Draw(t, "concurrent") == 0
+	if rapid.IntRange(0, 2).Draw(t, "preset") == 0 {
+		c.Preset = true
+		c.PreOwner = wm.EscName(gen.Name(t, gen.NameOpts{MaxLabs: 4, MaxLabel: 12}))
+		c.PreType = rapid.SampledFrom([]uint16{0, 1, 24, 46, 250, 65535}).Draw(t, "pretype")
+		c.PreClass = rapid.SampledFrom([]uint16{0, 1, 255}).Draw(t, "preclass")
+		c.PreTTL = rapid.SampledFrom([]uint32{0, 1, 3600, 1<<32 - 1}).Draw(t, "prettl")
+		c.PreRdlen = rapid.Uint16().Draw(t, "prerdlen")
+	}
 	c.RdLens = rapid.SliceOfN(rapid.IntRange(0, 65535), 0, 3).Draw(t, "rdlens")
 	c.Sample = rapid.SliceOfN(rapid.IntRange(0, 1<<22), 48, 48).Draw(t, "sample")
 	nm := rapid.IntRange(0, 6).Draw(t, "nmut")
 	for i := 0; i < nm; i++ {
 		c.Muts = append(c.Muts, Mut{Op: rapid.SampledFrom([]string{"set", "set", "ins", "del", "count", "ptr"}).Draw(t, "op"),
 			Pos: rapid.IntRange(0, 1<<20).Draw(t, "mpos"), Val: rapid.SliceOfN(rapid.Byte(), 1, 4).Draw(t, "mval")})
+	}
+	if rapid.IntRange(0, 39).Draw(t, "atmax") == 0 {
+		// the signed message exactly as long as a DNS message can be (or one octet less): an opaque
+		// record is sized so that packed message + SIG record come to 65535 / 65534 octets
+		target := rapid.SampledFrom([]int{65535, 65535, 65534}).Draw(t, "target")
+		c.RefSign, c.Msg.Compress = false, false
+		if c.IncOff > 0 || c.ExpOff < 0 {
+			c.IncOff, c.ExpOff = -3600, 3600
+		}
+		if len(c.Msg.Extra) > 200 {
+			c.Msg.Extra = c.Msg.Extra[:3]
+		}
+		c.Msg.Answer = append(c.Msg.Answer, msgspec.Rec{Kind: "UNK", Owner: 0, Class: 1, TTL: 5, Num: 3})
+		if priv, e1 := privFor(c); e1 == nil {
+			if sl, e2 := labelsOf(c.SignerAs); e2 == nil {
+				if p0, e3 := c.Msg.Build().Pack(); e3 == nil {
+					if need := target - (1 + 10 + 18 + len(sl.Wire()) + sigLen(c.Alg, priv)) - len(p0); need >= 0 && need <= 65000 {
+						d := make([]byte, need)
+						for i := range d {
+							d[i] = byte(i * 7)
+						}
+						c.Msg.Answer[len(c.Msg.Answer)-1].Data = d
+					}
+				}
+			}
+		}
 	}
 	excludeKnown(&c)
 	return c
